@@ -521,6 +521,45 @@ def all_cases(seed, count, kmax, tags=None):
         if i % 5 == 0:
             for s in text_only_variants(e, i):
                 yield None, s
+    # long and deep expressions: flat chains of n operands per operator class (fixed-size buffers in the flattening code),
+    # the same nested to the right in parentheses and mixed with a second class, prefix chains (depth of the printed tree)
+    for e in long_cases():
+        if tags is not None:
+            tags.append("random")
+        yield e, None
+
+
+def long_cases():
+    def ident(i):
+        return ('i', "x%d" % i)
+    out = []
+    for n in (10, 40, 63, 64, 65, 66, 67, 100, 130, 260):
+        for cls in CLASSES:
+            op = REPRESENTATIVE[cls]
+            e = ident(0)
+            for i in range(1, n + 1):                      # left-deep, unparenthesised: x0 op x1 op ... xn
+                e = ('b', op, e, ident(i))
+            out.append(e)
+            if n in (10, 65, 130):
+                r = ident(n)
+                for i in range(n - 1, -1, -1):             # nested to the right: x0 op (x1 op (... xn))
+                    r = ('b', op, ident(i), ('(', r))
+                out.append(r)
+                other = REPRESENTATIVE[CLASSES[(CLASSES.index(cls) + 1) % len(CLASSES)]]
+                m = ident(0)
+                for i in range(1, n + 1):                  # two classes alternating
+                    m = ('b', op if i % 2 else other, m, ident(i))
+                out.append(m)
+    for n in (10, 130, 260):
+        e = ident(0)
+        for i in range(n):
+            e = ('NOT', "NOT", e)
+        out.append(e)
+        e = ident(0)
+        for i in range(n):
+            e = ('~', ('(', e)) if i % 2 else ('~', e)
+        out.append(('(', e))
+    return out
 
 
 def run_tool(argv, data):
@@ -540,6 +579,7 @@ def unhex(h):
 
 
 def main():
+    sys.setrecursionlimit(20000)
     args = sys.argv[1:]
     if len(args) < 2:
         sys.stderr.write(__doc__)
